@@ -24,11 +24,11 @@ for d in sorted(p for p in S.iterdir() if p.is_dir() and (p / "meta.json").exist
     rows.append((d.name, meta.get("property", d.name[:3]), summ, ", ".join(caught) or "-", ", ".join(m for m in missed) or "-"))
 out = ["### 0.7 Seeded changes and the checks that catch them",
        "",
-       f"{len(rows)} changes to TorchJD were produced by independent sub-agents (five waves of two per property; each agent saw",
+       f"{len(rows)} changes to TorchJD were produced by independent sub-agents (six waves of up to two per property; each agent saw",
        "only the text of one property and its own scratch worktree of /repo, nothing from /verif), each with a",
        "demonstration program.  Every one was confirmed in a scratch worktree (`tools/confirm_seeded.py`: the patch applies",
        "to /repo HEAD, the whole unedited test-suite passes with it, the demonstration fails with it and passes without it)",
-       "and filed under `seeded/<id>/` (`patch.diff`, `demo.py`, `meta.json`; suffixes A,B = first wave, C,D = second, E,F = third, G,H = fourth, I,J = fifth).",
+       "and filed under `seeded/<id>/` (`patch.diff`, `demo.py`, `meta.json`; suffixes A,B = first wave, C,D = second, E,F = third, G,H = fourth, I,J = fifth, K,L = sixth).",
        "`tools/seeded_matrix.py` runs the check of the change's own property (quick, then thorough if quick is silent; some",
        "neighbouring checks too) against a scratch copy of the sources with the change applied - /repo itself is never",
        "touched.  Results (`seeded/RESULTS.json`):",
